@@ -340,7 +340,11 @@ class Exec:
             if isinstance(a, SRef) and isinstance(b, SRef): t = z3.BoolVal(a.ref == b.ref)
             elif isinstance(a, SNone) or isinstance(b, SNone): t = ops.equal(st, a, b)
             elif isinstance(a, SRef) != isinstance(b, SRef): t = z3.BoolVal(False)
-            else: raise Unsupported("`is` on values")
+            else:
+                # identity of two immutable values: finer than equality (equal values may or may not be the
+                # same object), otherwise unconstrained
+                t = z3.FreshBool("same_obj")
+                st = st.fact(z3.Implies(t, ops.equal(st, a, b)))
             return k(B(t if isinstance(op, ast.Is) else z3.Not(t)), st)
         if isinstance(a, SPrim) and isinstance(b, SPrim) and a.ty == b.ty == "int":
             t = {ast.Lt: a.t < b.t, ast.LtE: a.t <= b.t, ast.Gt: a.t > b.t, ast.GtE: a.t >= b.t}[type(op)]
